@@ -151,8 +151,6 @@ Notation parse_label := (parse_label decode16).
 Notation step := (step fdiv100 decode16 en).
 Notation sheet_loop := (sheet_loop fdiv100 decode16 en).
 Notation item_cells := (item_cells fdiv100 decode16 en).
-Notation item_read := (item_read fdiv100 decode16 en).
-Notation item_cells_gen := (item_cells_gen fdiv100 decode16 en).
 Notation num_data := (num_data en).
 Notation mulrk_denote := (mulrk_denote fdiv100 en).
 Notation str_text := (str_text decode16).
@@ -322,8 +320,7 @@ Proof.
   destruct (head_fields (le_bytes 4 isst) Hr Hc Hi) as (-> & -> & _).
   rewrite rd_app_skip by reflexivity. rewrite rd_le_nil.
   change (256 ^ N.of_nat 4) with 4294967296. rewrite N.mod_small by exact Hs.
-  unfold BiffRec.item_cells. cbn [BiffRec.item_cells_gen].
-  destruct (nthN (e_strings en) isst) as [[|c s]|]; reflexivity.
+  cbn [BiffRec.item_cells]. destruct (nthN (e_strings en) isst) as [[|c s]|]; reflexivity.
 Qed.
 
 (* ---------- XLUnicodeString (LABEL, STRING) ---------- *)
@@ -440,8 +437,7 @@ Proof. reflexivity. Qed.
 Theorem formula_cached_value : forall c, wf_cached c = true ->
   parse_formula_value (enc_cached c) = Ok (cached_result c).
 Proof.
-  intros c H. destruct c as [bits|b|e| |s more]; unfold cached_data;
-    cbn [enc_cached cached_result cached_data_gen].
+  intros c H. destruct c as [bits|b|e| |s more]; cbn [enc_cached cached_result cached_data].
   - cbn [wf_cached] in H. apply andb_true_iff in H as [Hb Hnf].
     unfold parse_formula_value. rewrite le_bytes_length.
     cbn [Nat.leb Nat.ltb Nat.sub andb].
@@ -558,6 +554,13 @@ Proof. reflexivity. Qed.
 Lemma step_519 : forall d cells fpos fmls, step (mkRec 519 d None) cells fpos fmls =
   (do s <- parse_string d; Ok (Next (cells ++ [(fpos, DString s)]) fpos fmls)).
 Proof. reflexivity. Qed.
+Lemma step_519_cont : forall d conts cells fpos fmls,
+  step (mkRec 519 d (Some conts)) cells fpos fmls =
+  (do s <- (if lenN d <? 3 then parse_string d else
+            do b <- dbcs_bytes conts (skipn 3 d) (rd 2 0 d) (N.odd (nth 2 d 0)) [];
+            Ok (decode16 b));
+   Ok (Next (cells ++ [(fpos, DString s)]) fpos fmls)).
+Proof. reflexivity. Qed.
 Lemma step_6 : forall d cells fpos fmls, step (mkRec 6 d None) cells fpos fmls =
   if lenN d <? 20 then Err 1 else
   let p := (rd 2 0 d, rd 2 2 d) in
@@ -592,22 +595,22 @@ Proof. intros m s H. unfold wf_xlstr in H. lia. Qed.
 Definition formula_body (row col ixfe : N) (c : cached) (grbit chn : N) (fmla : list N) : list N :=
   cell_head row col ixfe ++ enc_cached c ++ le_bytes 2 grbit ++ le_bytes 4 chn ++ fmla.
 
-(* what the FORMULA record itself pushes (the same under both readings of a string result) *)
-Definition formula_result (full : bool) (ixfe : N) (c : cached) : option data :=
+(* what the FORMULA record itself pushes *)
+Definition formula_result (ixfe : N) (c : cached) : option data :=
   match c with
   | CStr _ _ => None                    (* the value comes with the STRING record *)
-  | _ => Some (formula_data_gen decode16 en full ixfe c)
+  | _ => Some (formula_data decode16 en ixfe c)
   end.
 
-Lemma step_formula : forall full row col ixfe c grbit chn fmla cells fpos fmls,
+Lemma step_formula : forall row col ixfe c grbit chn fmla cells fpos fmls,
   row < 65536 -> col < 65536 -> ixfe < 65536 -> wf_cached c = true ->
   step (mkRec 6 (formula_body row col ixfe c grbit chn fmla) None) cells fpos fmls =
-    Ok (match formula_result full ixfe c with
+    Ok (match formula_result ixfe c with
         | Some x => Next (cells ++ [((row, col), x)]) (row, col) (fmls ++ [(row, col)])
         | None => Next cells (row, col) (fmls ++ [(row, col)])
         end).
 Proof.
-  intros full row col ixfe c grbit chn fmla cells fpos fmls Hr Hc Hi Hwf. rewrite step_6.
+  intros row col ixfe c grbit chn fmla cells fpos fmls Hr Hc Hi Hwf. rewrite step_6.
   unfold formula_body.
   assert (HL : lenN (cell_head row col ixfe ++ enc_cached c ++ le_bytes 2 grbit
                      ++ le_bytes 4 chn ++ fmla) = 20 + lenN fmla).
@@ -675,21 +678,17 @@ Proof.
   rewrite collect_cont_frames by assumption. reflexivity.
 Qed.
 
-(* the step never looks at the continuation chunks *)
-Lemma step_cont_irrelevant : forall t d c cells fpos fmls,
-  step (mkRec t d c) cells fpos fmls = step (mkRec t d None) cells fpos fmls.
-Proof. reflexivity. Qed.
 
 Lemma loop_frame_cont : forall f t body conts rest cells fpos fmls cells' fpos' fmls',
   t < 65536 -> lenN body < 65536 -> conts <> [] -> Forall cont_ok conts ->
   starts_cont rest = false -> (length conts < f)%nat ->
-  step (mkRec t body None) cells fpos fmls = Ok (Next cells' fpos' fmls') ->
+  step (mkRec t body (Some conts)) cells fpos fmls = Ok (Next cells' fpos' fmls') ->
   sheet_loop (S f) (frame t body ++ flat_map (frame 60) conts ++ rest) cells fpos fmls =
   sheet_loop f rest cells' fpos' fmls'.
 Proof.
   intros f t body conts rest cells fpos fmls cells' fpos' fmls' Ht Hb Hne HF Hs Hf Hstep.
   cbn [BiffRec.sheet_loop]. rewrite next_record_frame_cont by assumption.
-  cbn [obind fst snd]. rewrite step_cont_irrelevant, Hstep. reflexivity.
+  cbn [obind fst snd]. rewrite Hstep. reflexivity.
 Qed.
 
 (* ---- ignored records in a row: nothing changes, in particular not the pending position ---- *)
@@ -817,6 +816,55 @@ Lemma flat_map_map : forall (A B C : Type) (g : A -> B) (h : B -> list C) l,
   flat_map h (map g l) = flat_map (fun x => h (g x)) l.
 Proof. induction l as [|x l IH]; [reflexivity|]. cbn [map flat_map]. now rewrite IH. Qed.
 
+Lemma utf16le_app : forall a b, utf16le (a ++ b) = utf16le a ++ utf16le b.
+Proof. intros a b. unfold utf16le. apply flat_map_app. Qed.
+
+Lemma wf_frag_units : forall s, wf_frag s = true ->
+  forallb (fun u => u <? (if s_wide s then 65536 else 256)) (s_units s) = true.
+Proof. intros s H. unfold wf_frag in H. apply andb_true_iff in H as [_ H]. exact H. Qed.
+
+(* read_dbcs over the STRING fragment and the CONTINUE fragments gives the UTF-16LE bytes of the
+   whole string, whatever the cuts and the flag bytes (len = the characters still to come) *)
+Lemma dbcs_bytes_enc : forall more s acc,
+  wf_frag s = true -> forallb wf_frag more = true ->
+  dbcs_bytes (map enc_cont_rec more) (frag_chars s)
+             (lenN (s_units s) + lenN (flat_map s_units more)) (s_wide s) acc =
+    Ok (acc ++ utf16le (s_units s ++ flat_map s_units more)).
+Proof.
+  induction more as [|m more IH]; intros [units wide] acc Hs Hm;
+    pose proof (wf_frag_units _ Hs) as Hall; cbn [s_units s_wide] in Hall;
+    unfold frag_chars; cbn [s_units s_wide map flat_map].
+  - rewrite lenN_nil, N.add_0_r, app_nil_r.
+    destruct wide.
+    + cbn [dbcs_bytes]. rewrite lenN_utf16le.
+      replace (2 * lenN units / 2) with (lenN units) by lia. rewrite N.min_id, N.sub_diag.
+      cbn [N.eqb]. rewrite firstn_all2; [reflexivity|]. rewrite utf16le_length. unfold lenN. lia.
+    + cbn [dbcs_bytes]. rewrite N.min_id, N.sub_diag. cbn [N.eqb].
+      rewrite firstn_all2 by (unfold lenN; lia). rewrite compressed_expand by exact Hall. reflexivity.
+  - cbn [forallb] in Hm. apply andb_true_iff in Hm as [Hm0 Hm].
+    set (R := lenN (s_units m ++ flat_map s_units more)).
+    assert (HR : R = lenN (s_units m) + lenN (flat_map s_units more)) by (unfold R; apply lenN_app).
+    assert (Hb : (if wide then firstn (N.to_nat (2 * lenN units)) (utf16le units)
+                  else flat_map (fun b => [b; 0]) (firstn (N.to_nat (lenN units)) units))
+                 = utf16le units).
+    { destruct wide.
+      - apply firstn_all2. rewrite utf16le_length. unfold lenN. lia.
+      - rewrite firstn_all2 by (unfold lenN; lia). apply compressed_expand, Hall. }
+    cbn [dbcs_bytes].
+    assert (Hl : (if wide then N.min (lenN (if wide then utf16le units else units) / 2) (lenN units + R)
+                  else N.min (lenN (if wide then utf16le units else units)) (lenN units + R)) = lenN units).
+    { destruct wide; [rewrite lenN_utf16le; replace (2 * lenN units / 2) with (lenN units) by lia|];
+        apply N.min_l; lia. }
+    destruct wide; rewrite Hl, Hb; replace (lenN units + R - lenN units) with R by lia;
+      (destruct (R =? 0) eqn:E;
+       [ apply N.eqb_eq in E;
+         assert (Hnil : s_units m ++ flat_map s_units more = [])
+           by (destruct (s_units m ++ flat_map s_units more); [reflexivity|unfold R in E; rewrite lenN_cons in E; lia]);
+         rewrite Hnil, app_nil_r; reflexivity
+       | unfold enc_cont_rec at 1; rewrite odd_flag, HR, IH by assumption;
+         rewrite <- app_assoc, <- utf16le_app; reflexivity ]).
+Qed.
+
 (* ---- one item through the loop ---- *)
 (* records the loop sees (a record and its CONTINUEs count once) / CONTINUE records folded in *)
 Definition nrec (it : item) : nat :=
@@ -830,20 +878,18 @@ Definition ncont (it : item) : nat :=
 Definition nrecs (l : list item) : nat := fold_right (fun it n => (nrec it + n)%nat) 0%nat l.
 Definition nconts (l : list item) : nat := fold_right (fun it n => (ncont it + n)%nat) 0%nat l.
 
-(* the loop pushes what the reader takes from the item ([item_read]; equal to [item_cells]
-   outside known_C02's class) *)
 Lemma item_loop : forall it f rest cells fpos fmls,
   wf_item it = true -> starts_cont rest = false -> (ncont it < f)%nat ->
   exists fpos',
     sheet_loop (nrec it + f) (enc_item it ++ rest) cells fpos fmls =
-    sheet_loop f rest (cells ++ item_read it) fpos' (fmls ++ item_fmls it).
+    sheet_loop f rest (cells ++ item_cells it) fpos' (fmls ++ item_fmls it).
 Proof.
   intros it f rest cells fpos fmls Hwf Hs Hfuel.
   destruct it as [row col ixfe bits|row col ixfe fm|row cf rks|row col ixfe isst|row col ixfe s
                  |row col ixfe b|row col ixfe e|row col ixfe c grbit chn fmla mid
                  |wide rf rl cf cl|typ body];
-    cbn [wf_item] in Hwf; unfold BiffRec.item_read;
-    cbn [enc_item nrec BiffRec.item_cells_gen item_fmls Nat.add];
+    cbn [wf_item] in Hwf;
+    cbn [enc_item nrec BiffRec.item_cells item_fmls Nat.add];
     rewrite ?app_nil_r.
   - (* NUMBER *)
     apply andb_true_iff in Hwf as [Hc Hb]. apply wf_cell_split in Hc as (Hr & Hc & Hi).
@@ -900,19 +946,19 @@ Proof.
                 (frame 6 (formula_body row col ixfe c grbit chn fmla)
                  ++ flat_map enc_mid mid ++ tail) cells fpos fmls =
               sheet_loop g tail
-                (match formula_result false ixfe c with
+                (match formula_result ixfe c with
                  | Some x => cells ++ [((row, col), x)] | None => cells end)
                 (row, col) (fmls ++ [(row, col)])).
     { intros g tail Ht.
       rewrite (@loop_frame (length mid + g) 6 (formula_body row col ixfe c grbit chn fmla)
                  (flat_map enc_mid mid ++ tail) cells fpos fmls
-                 (match formula_result false ixfe c with
+                 (match formula_result ixfe c with
                   | Some x => cells ++ [((row, col), x)] | None => cells end)
                  (row, col) (fmls ++ [(row, col)])); try lia.
       - apply mids_loop; assumption.
       - apply mids_start; assumption.
-      - rewrite (step_formula false) by (try lia; assumption).
-        destruct (formula_result false ixfe c); reflexivity. }
+      - rewrite step_formula by (try lia; assumption).
+        destruct (formula_result ixfe c); reflexivity. }
     destruct c as [bits|b|e| |s more];
       try (cbn [app]; rewrite ?app_nil_r, Nat.add_0_r; cbn [Nat.add];
            rewrite Hhead by exact Hs; reflexivity).
@@ -922,19 +968,26 @@ Proof.
     pose proof (wf_frag_len _ Hws) as Hlen. cbn [ncont] in Hfuel.
     replace (S (length mid + 1 + f))%nat with (S (length mid + S f)) by lia.
     rewrite <- app_assoc. rewrite Hhead.
-    + cbn [formula_result formula_data_gen cached_data_gen].
+    + cbn [formula_result formula_data cached_data].
       destruct more as [|m0 more'].
       * cbn [flat_map app].
         apply loop_frame; try assumption; try lia.
         -- rewrite lenN_string_rec. destruct (s_wide s); lia.
-        -- rewrite step_519, parse_string_first by (try lia; assumption). reflexivity.
+        -- rewrite step_519, parse_string_first by (try lia; assumption).
+           unfold cstr_units. cbn [flat_map]. rewrite app_nil_r. reflexivity.
       * rewrite <- (flat_map_map enc_cont_rec (frame 60)).
         apply loop_frame_cont; try assumption; try lia.
         -- rewrite lenN_string_rec. destruct (s_wide s); lia.
         -- discriminate.
         -- apply conts_ok, Hmore.
         -- rewrite map_length. exact Hfuel.
-        -- rewrite step_519, parse_string_first by (try lia; assumption). reflexivity.
+        -- rewrite step_519_cont. rewrite lenN_string_rec.
+           destruct (3 + (if s_wide s then 2 * lenN (s_units s) else lenN (s_units s)) <? 3) eqn:E3;
+             [destruct (s_wide s); lia|].
+           unfold enc_string_rec at 1 2 3. rewrite rd2 by lia. rewrite le2.
+           cbn [app nth skipn]. rewrite odd_flag.
+           rewrite cstr_units_len, dbcs_bytes_enc by assumption.
+           cbn [obind app]. reflexivity.
     + apply starts_cont_frame; lia.
   - (* DIMENSIONS *)
     exists fpos. rewrite ?app_nil_r.
@@ -975,7 +1028,7 @@ Lemma items_loop : forall items f rest cells fpos fmls,
   forallb wf_item items = true -> starts_cont rest = false -> (nconts items < f)%nat ->
   exists fpos',
     sheet_loop (nrecs items + f) (flat_map enc_item items ++ rest) cells fpos fmls =
-    sheet_loop f rest (cells ++ flat_map item_read items) fpos' (fmls ++ flat_map item_fmls items).
+    sheet_loop f rest (cells ++ flat_map item_cells items) fpos' (fmls ++ flat_map item_fmls items).
 Proof.
   induction items as [|it items IH]; intros f rest cells fpos fmls Hwf Hs Hf.
   - exists fpos. cbn [flat_map nrecs fold_right app Nat.add]. rewrite !app_nil_r. reflexivity.
@@ -986,7 +1039,7 @@ Proof.
                 (flat_map enc_item items ++ rest) cells fpos fmls Hit
                 (items_start items rest Hrest Hs)) as [fp1 ->]; [lia|].
     fold (nrecs items).
-    destruct (IH f rest (cells ++ item_read it) fp1 (fmls ++ item_fmls it) Hrest Hs) as [fp2 ->];
+    destruct (IH f rest (cells ++ item_cells it) fp1 (fmls ++ item_fmls it) Hrest Hs) as [fp2 ->];
       [lia|].
     exists fp2. rewrite <- !app_assoc. reflexivity.
 Qed.
@@ -1027,16 +1080,16 @@ Proof.
   pose proof (enc_item_length it). lia.
 Qed.
 
-(* the cell list the loop builds from any well-formed layout: what the reader takes from each
-   item, in stream order; and the formula positions *)
-Theorem sheet_cells_read : forall c, wf_layout c = true ->
+(* the cell list the loop builds from any well-formed layout (cell records in any order): the
+   logical cell list of the layout, in stream order; and the formula positions *)
+Theorem sheet_cells_encode : forall c, wf_layout c = true ->
   sheet_cells fdiv100 decode16 en (encode_sheet c) =
-    Ok (read_logical fdiv100 decode16 en c, layout_fmls c).
+    Ok (logical fdiv100 decode16 en c, layout_fmls c).
 Proof.
   intros [items trailer] Hwf. unfold wf_layout in Hwf. cbn [l_items l_trailer] in Hwf.
   apply andb_true_iff in Hwf as [Hit Htr]. unfold trailer_ok in Htr.
   assert (Hs : starts_cont trailer = false) by (destruct (starts_cont trailer); [discriminate|reflexivity]).
-  unfold sheet_cells, encode_sheet, read_logical, layout_fmls. cbn [l_items l_trailer].
+  unfold sheet_cells, encode_sheet, logical, layout_fmls. cbn [l_items l_trailer].
   set (tail := frame 10 [] ++ trailer).
   assert (Htail : starts_cont tail = false) by (apply starts_cont_frame; lia).
   (* enough fuel: one unit per record, and every record has at least four bytes *)
@@ -1053,32 +1106,6 @@ Proof.
   - apply items_start; assumption.
   - apply step_other. reflexivity.
 Qed.
-
-(* outside known_C02's class the reader takes exactly what the items denote *)
-Lemma item_known_none : forall it, item_known it = false -> item_read it = item_cells it.
-Proof.
-  intros it H. destruct it as [| | | | | | |row col ixfe c grbit chn fmla mid| |]; try reflexivity.
-  destruct c as [| | | |s more]; try reflexivity.
-  cbn [item_known] in H. unfold BiffRec.item_read, BiffRec.item_cells.
-  cbn [BiffRec.item_cells_gen formula_data_gen cached_data_gen]. unfold cstr_units.
-  destruct (flat_map s_units more); [rewrite app_nil_r; reflexivity|discriminate].
-Qed.
-
-Lemma known_none_read : forall c, known_C02 c = None ->
-  read_logical fdiv100 decode16 en c = logical fdiv100 decode16 en c.
-Proof.
-  intros [items trailer] H. unfold known_C02 in H. cbn [l_items] in H.
-  unfold read_logical, logical. cbn [l_items].
-  destruct (existsb item_known items) eqn:E; [discriminate|]. clear H.
-  induction items as [|it items IH]; [reflexivity|].
-  cbn [existsb] in E. apply orb_false_iff in E as [E1 E2].
-  cbn [flat_map]. rewrite item_known_none by exact E1. rewrite IH by exact E2. reflexivity.
-Qed.
-
-Theorem sheet_cells_encode : forall c, wf_layout c = true -> known_C02 c = None ->
-  sheet_cells fdiv100 decode16 en (encode_sheet c) =
-    Ok (logical fdiv100 decode16 en c, layout_fmls c).
-Proof. intros c Hwf Hk. rewrite sheet_cells_read by exact Hwf. now rewrite known_none_read. Qed.
 
 End Biff.
 
@@ -1101,13 +1128,13 @@ Proof.
   - apply IH; [exact Hr|]. rewrite lenN_cons in Hc. lia.
 Qed.
 
-Lemma item_cells_grid : forall full it, wf_item it = true ->
-  Forall in_grid (item_cells_gen fdiv100 decode16 en full it).
+Lemma item_cells_grid : forall it, wf_item it = true ->
+  Forall in_grid (item_cells fdiv100 decode16 en it).
 Proof.
-  intros full it Hwf.
+  intros it Hwf.
   destruct it as [row col ixfe bits|row col ixfe fm|row cf rks|row col ixfe isst|row col ixfe s
                  |row col ixfe b|row col ixfe e|row col ixfe c grbit chn fmla mid
-                 |wide rf rl cf cl|typ body]; cbn [wf_item] in Hwf; cbn [item_cells_gen];
+                 |wide rf rl cf cl|typ body]; cbn [wf_item] in Hwf; cbn [item_cells];
     try (constructor; [unfold in_grid, wf_cell in *; cbn [fst snd]; lia|constructor]);
     try constructor.
   - apply mulrk_denote_grid; lia.
@@ -1115,29 +1142,14 @@ Proof.
     unfold in_grid, wf_cell in *. cbn [fst snd]. lia.
 Qed.
 
-Lemma items_grid : forall full items, forallb wf_item items = true ->
-  Forall in_grid (flat_map (item_cells_gen fdiv100 decode16 en full) items).
-Proof.
-  intros full items Hit.
-  induction items as [|it items IH]; [constructor|].
-  cbn [forallb] in Hit. apply andb_true_iff in Hit as [H1 H2].
-  cbn [flat_map]. apply Forall_app. split; [apply item_cells_grid, H1|apply IH, H2].
-Qed.
-
 Lemma logical_grid : forall c, wf_layout c = true ->
   Forall in_grid (logical fdiv100 decode16 en c).
 Proof.
   intros [items trailer] Hwf. unfold wf_layout in Hwf. cbn [l_items] in Hwf.
   apply andb_true_iff in Hwf as [Hit _]. unfold logical. cbn [l_items].
-  apply (items_grid true), Hit.
-Qed.
-
-Lemma read_logical_grid : forall c, wf_layout c = true ->
-  Forall in_grid (read_logical fdiv100 decode16 en c).
-Proof.
-  intros [items trailer] Hwf. unfold wf_layout in Hwf. cbn [l_items] in Hwf.
-  apply andb_true_iff in Hwf as [Hit _]. unfold read_logical. cbn [l_items].
-  apply (items_grid false), Hit.
+  induction items as [|it items IH]; [constructor|].
+  cbn [forallb] in Hit. apply andb_true_iff in Hit as [H1 H2].
+  cbn [flat_map]. apply Forall_app. split; [apply item_cells_grid, H1|apply IH, H2].
 Qed.
 End Bounds.
 
@@ -1248,127 +1260,17 @@ Proof.
   - apply IH, HS.
 Qed.
 
-Lemma pre_from_grid : forall (T : Type) (cs : list (pos * T)),
-  sorted_by_row cs -> Forall (fun p => fst p < 65536 /\ snd p < 256) (map fst cs) ->
-  pre empty (OFromSparse cs).
+Lemma pre_sparse_grid : forall (T : Type) (cs : list (pos * T)),
+  Forall (fun p => fst p < 65536 /\ snd p < 256) (map fst cs) -> pre_sparse cs.
 Proof.
-  intros T cs Hs Hg. cbn [pre]. split; [exact Hs|]. split.
+  intros T cs Hg. split.
   - intros x Hx. rewrite Forall_forall in Hg. destruct (Hg (fst x)) as [G1 G2].
     + apply in_map. exact Hx.
     + unfold U32MAX. lia.
   - destruct (map fst cs) as [|p0 ps] eqn:E; [exact I|].
     destruct (tight_bbox_grid Hg) as (s & e & -> & B).
-    unfold box_in_grid in B. unfold U32MAX. cbn [fst snd] in *. lia.
+    unfold box_in_grid in B. unfold box_cells, U64MAX. cbn [fst snd] in *. nia.
 Qed.
-
-(* ---------- Range::from_sparse as of HEAD (from_sparse_h) vs C05's model (Range.from_sparse):
-   equal on row-sorted cells inside the BIFF8 grid ---------- *)
-Section FsH.
-Variable T : Type.
-Variable d : T.
-Notation row c := (fst (fst c)).
-Notation col c := (snd (fst c)).
-
-Lemma fold_left_ext2 : forall (A B : Type) (f g : A -> B -> A) (l : list B) (a : A),
-  (forall x y, f x y = g x y) -> fold_left f l a = fold_left g l a.
-Proof.
-  intros A B f g l. induction l as [|y l IH]; intros a H; [reflexivity|].
-  cbn [fold_left]. rewrite H. apply IH, H.
-Qed.
-
-Lemma last_In : forall (A : Type) (l : list A) (x a : A), In (last (x :: l) a) (x :: l).
-Proof.
-  intros A l. induction l as [|y l IH]; intros x a; [left; reflexivity|].
-  right. change (last (x :: y :: l) a) with (last (y :: l) a). apply IH.
-Qed.
-
-Lemma fs_fold_max_le : forall (f : pos -> N) (l : list (pos * T)) m B,
-  m <= B -> (forall c, In c l -> f (fst c) <= B) ->
-  fold_left (fun m c => if m <? f (fst c) then f (fst c) else m) l m <= B.
-Proof.
-  intros f l. induction l as [|x l IH]; intros m B Hm H; [exact Hm|].
-  cbn [fold_left]. apply IH.
-  - destruct (m <? f (fst x)); [apply H; left; reflexivity|exact Hm].
-  - intros c Hc. apply H. right. exact Hc.
-Qed.
-
-Lemma guarded_fold : forall rs cs cols len (cells : list (N * N * T)) (v : list T),
-  (forall c, In c cells -> rs <= row c /\ cs <= col c) ->
-  fold_left (fun (acc : outcome (list T)) c =>
-               do v <- acc;
-               do row <- sub32 (fst (fst c)) rs;
-               do col <- sub32 (snd (fst c)) cs;
-               let idx := row * cols + col in
-               if idx <? len then Ok (list_set v (N.to_nat idx) (snd c)) else Ok v)
-            cells (Ok v) =
-  Ok (fold_left (fun v c =>
-                   let idx := (fst (fst c) - rs) * cols + (snd (fst c) - cs) in
-                   if idx <? len then list_set v (N.to_nat idx) (snd c) else v) cells v).
-Proof.
-  intros rs cs cols len cells. induction cells as [|c cells IH]; intros v H; [reflexivity|].
-  cbn [fold_left]. destruct (H c (or_introl eq_refl)) as [H1 H2].
-  assert (S1 : sub32 (row c) rs = Ok (row c - rs)).
-  { unfold sub32. destruct (rs <=? row c) eqn:E1; [reflexivity|lia]. }
-  assert (S2 : sub32 (col c) cs = Ok (col c - cs)).
-  { unfold sub32. destruct (cs <=? col c) eqn:E2; [reflexivity|lia]. }
-  cbn [obind]. rewrite S1. cbn [obind]. rewrite S2. cbn [obind]. cbv zeta.
-  destruct ((row c - rs) * cols + (col c - cs) <? len); apply IH; intros x Hx; apply H; right; exact Hx.
-Qed.
-
-Lemma from_sparse_h_sorted : forall cs : list (pos * T),
-  sorted_by_row cs -> Forall (fun c => row c < 65536 /\ col c < 256) cs ->
-  from_sparse_h d cs = from_sparse d cs.
-Proof.
-  intros [|c0 l] Hs Hg; [reflexivity|].
-  destruct (@sorted_rows T l c0 Hs) as (Hb & Hmin & Hmax).
-  assert (Hg0 : row c0 < 65536 /\ col c0 < 256) by (inversion Hg; assumption).
-  assert (Hgall : forall c, In c (c0 :: l) -> row c < 65536 /\ col c < 256)
-    by (rewrite Forall_forall in Hg; exact Hg).
-  assert (Hrs : fs_min fst (c0 :: l) = row c0).
-  { unfold fs_min. cbn [fold_left]. unfold U32MAX.
-    destruct (row c0 <? 4294967295) eqn:E; [|lia].
-    etransitivity; [|exact Hmin].
-    apply fold_left_ext2. intros x y.
-    match goal with |- (if ?b then _ else _) = _ => destruct b eqn:E' end.
-    - apply N.ltb_lt in E'. symmetry. apply N.min_r. apply N.lt_le_incl, E'.
-    - apply N.ltb_ge in E'. symmetry. apply N.min_l. exact E'. }
-  assert (Hre : fs_max fst (c0 :: l) = row (last (c0 :: l) c0)).
-  { unfold fs_max. cbn [fold_left].
-    replace (if 0 <? row c0 then row c0 else 0) with (row c0) by (destruct (0 <? row c0) eqn:E'; lia).
-    etransitivity; [|exact Hmax].
-    apply fold_left_ext2. intros x y.
-    match goal with |- (if ?b then _ else _) = _ => destruct b eqn:E' end.
-    - apply N.ltb_lt in E'. symmetry. apply N.max_r. apply N.lt_le_incl, E'.
-    - apply N.ltb_ge in E'. symmetry. apply N.max_l. exact E'. }
-  unfold from_sparse_h, from_sparse. rewrite Hrs, Hre. unfold fs_min, fs_max.
-  set (cmin := fold_left (fun m c => if snd (fst c) <? m then snd (fst c) else m) (c0 :: l) U32MAX).
-  set (cmax := fold_left (fun m c => if m <? snd (fst c) then snd (fst c) else m) (c0 :: l) 0).
-  set (rlast := row (last (c0 :: l) c0)).
-  assert (Hc1 : cmin <= col c0) by (apply (fold_min_bounds (c0 :: l) U32MAX); left; reflexivity).
-  assert (Hc2 : col c0 <= cmax) by (apply (fold_max_bounds (c0 :: l) 0); left; reflexivity).
-  assert (Hc3 : cmax <= 255).
-  { apply (@fs_fold_max_le snd (c0 :: l) 0 255); [lia|].
-    intros c Hc. destruct (Hgall c Hc). lia. }
-  assert (Hr1 : row c0 <= rlast) by (apply Hb; left; reflexivity).
-  assert (Hr2 : rlast < 65536).
-  { unfold rlast. apply Hgall. apply last_In. }
-  unfold sub32, add32, U32MAX.
-  destruct (cmin <=? cmax) eqn:E1; [|lia]. cbn [obind].
-  destruct (cmax - cmin + 1 <=? 4294967295) eqn:E2; [|lia]. cbn [obind].
-  destruct (row c0 <=? rlast) eqn:E3; [|lia]. cbn [obind].
-  destruct (rlast - row c0 + 1 <=? 4294967295) eqn:E4; [|lia]. cbn [obind].
-  cbv zeta.
-  match goal with
-  | |- _ = obind ?X _ =>
-      let H := fresh "HX" in
-      eassert (H : X = Ok _)
-        by (apply guarded_fold; intros c Hc; split;
-            [apply Hb; exact Hc|apply (fold_min_bounds (c0 :: l) U32MAX); exact Hc]);
-      rewrite H
-  end.
-  reflexivity.
-Qed.
-End FsH.
 
 Section Fmls.
 Variable fdiv100 : N -> N.
@@ -1376,32 +1278,6 @@ Variable decode16 : list N -> list N.
 Variable en : env.
 
 Ltac lia := try clear fdiv100; try clear decode16; try clear en; Lia.lia.
-
-Lemma fmls_incl : forall full items x,
-  In x (map fst (flat_map item_fmls items)) ->
-  In x (rows_of (flat_map (item_cells_gen fdiv100 decode16 en full) items)).
-Proof.
-  intros full. induction items as [|it items IH]; intros x H; [exact H|].
-  cbn [flat_map] in *. unfold rows_of in *. rewrite map_app in *.
-  apply in_app_or in H. apply in_or_app. destruct H as [H|H].
-  - left. destruct it; cbn [item_fmls map] in H; try contradiction.
-    cbn [item_cells_gen map fst]. exact H.
-  - right. apply IH, H.
-Qed.
-
-Lemma fmls_rows_sorted : forall full items,
-  StronglySorted N.le (rows_of (flat_map (item_cells_gen fdiv100 decode16 en full) items)) ->
-  StronglySorted N.le (map fst (flat_map item_fmls items)).
-Proof.
-  intros full. induction items as [|it items IH]; intros H; [constructor|].
-  cbn [flat_map] in *. unfold rows_of in H. rewrite map_app in H. fold (rows_of) in H.
-  assert (Hrest : StronglySorted N.le (map fst (flat_map item_fmls items))).
-  { apply IH. apply SS_app_r in H. exact H. }
-  destruct it; cbn [item_fmls app]; try exact Hrest.
-  cbn [item_cells_gen map fst app] in H. cbn [map fst]. inversion H as [|? ? HS HF]; subst.
-  constructor; [exact Hrest|].
-  rewrite Forall_forall in *. intros x Hx. apply HF. apply (fmls_incl full) in Hx. exact Hx.
-Qed.
 
 Lemma fmls_grid : forall items, forallb wf_item items = true ->
   Forall (fun p => fst p < 65536 /\ snd p < 256) (flat_map item_fmls items).
@@ -1423,36 +1299,21 @@ Variable en : env.
 (* keep lia from capturing section variables the statement does not mention *)
 Ltac lia := try clear fdiv100; try clear decode16; try clear en; Lia.lia.
 
-(* the statement of Range_proofs.from_sparse_spec (Properties/C05.v, C05_from_sparse_spec) *)
-Hypothesis from_sparse_spec_H :
-  forall (T : Type) (d : T) (cs : list (pos * T)),
-    pre empty (OFromSparse cs) ->
-    exists r, from_sparse d cs = Ok r /\ Wf r /\
-      rect r = tight_bbox (map fst cs) /\
-      forall q, get_value r q = if in_rect r q then Some (last_write d cs q) else None.
-
 Lemma from_sparse_range_of : forall L : list cellv,
-  sorted_by_rowb L = true -> Forall in_grid L ->
-  from_sparse DEmpty L = Ok (range_of L).
-Proof using from_sparse_spec_H.
-  intros L Hs Hg. destruct L as [|c0 L0] eqn:EL; [reflexivity|]. rewrite <- EL in *.
+  Forall in_grid L -> from_sparse DEmpty L = Ok (range_of L).
+Proof.
+  intros L Hg. destruct L as [|c0 L0] eqn:EL; [reflexivity|]. rewrite <- EL in *.
   assert (Hne : L <> []) by (rewrite EL; discriminate).
+  assert (HgP : Forall (fun p => fst p < 65536 /\ snd p < 256) (map fst L))
+    by (apply Forall_map; exact Hg).
   (* the bounding box *)
   assert (Hbb : exists s e, tight_bbox (map fst L) = Some (s, e) /\
                   fst s < 65536 /\ snd s < 256 /\ fst e < 65536 /\ snd e < 256).
-  { rewrite EL. cbn [map].
-    assert (HgP : Forall (fun p => fst p < 65536 /\ snd p < 256) (map fst (c0 :: L0))).
-    { rewrite <- EL. apply Forall_map. exact Hg. }
-    cbn [map] in HgP. destruct (tight_bbox_grid HgP) as (s & e & Hb & B).
+  { revert HgP. rewrite EL. cbn [map]. intros HgP.
+    destruct (tight_bbox_grid HgP) as (s & e & Hb & B).
     exists s, e. split; [exact Hb|]. exact B. }
   destruct Hbb as (s & e & Hbb & Hs1 & Hs2 & He1 & He2).
-  (* preconditions of from_sparse *)
-  assert (Hpre : pre empty (OFromSparse L)).
-  { cbn [pre]. split; [apply sorted_by_rowb_spec, Hs|]. split.
-    - intros c Hc. rewrite Forall_forall in Hg. destruct (Hg c Hc) as [G1 G2].
-      unfold U32MAX. lia.
-    - rewrite Hbb. unfold U32MAX. lia. }
-  destruct (from_sparse_spec_H DEmpty Hpre) as (r & Hr & Hwf & Hrect & Hget).
+  destruct (from_sparse_spec_unsorted DEmpty (pre_sparse_grid L HgP)) as (r & Hr & Hwf & Hrect & Hget).
   rewrite Hr. f_equal. unfold range_of. rewrite Hbb.
   destruct r as [rs re inner]. rewrite Hbb in Hrect. unfold rect in Hrect.
   destruct (is_empty (mkRange rs re inner)) eqn:Hemp; [discriminate|].
@@ -1489,86 +1350,40 @@ Proof using from_sparse_spec_H.
     rewrite H1, H2. reflexivity.
 Qed.
 
-(* the formula range is built without panic *)
-Lemma fmls_range_ok : forall full items,
-  forallb wf_item items = true ->
-  sorted_by_rowb (flat_map (item_cells_gen fdiv100 decode16 en full) items) = true ->
-  exists r, from_sparse tt (map (fun p => (p, tt)) (flat_map item_fmls items)) = Ok r.
-Proof using from_sparse_spec_H.
-  intros full items Hwf Hs.
-  destruct (@from_sparse_spec_H unit tt (map (fun p => (p, tt)) (flat_map item_fmls items)))
-    as (r & Hr & _).
-  - apply pre_from_grid.
-    + apply SS_sorted_by_row.
-      apply (@fmls_rows_sorted fdiv100 decode16 en full). apply sorted_rows_SS. exact Hs.
-    + rewrite map_map. cbn [fst]. rewrite map_id. apply fmls_grid. exact Hwf.
-  - exists r. exact Hr.
-Qed.
+(* the formula range is built whatever the positions *)
+Lemma fmls_range_ok : forall ps : list pos,
+  exists r, from_sparse tt (map (fun p => (p, tt)) ps) = Ok r.
+Proof. intros ps. destruct (from_sparse_total tt (map (fun p => (p, tt)) ps)) as (r & Hr & _). eauto. Qed.
 
-(* HEAD's from_sparse never fails *)
-Lemma from_sparse_h_ok : forall (T : Type) (d : T) (cs : list (pos * T)),
-  exists r, from_sparse_h d cs = Ok r.
-Proof. intros T d [|c cs]; eexists; reflexivity. Qed.
-
-Lemma from_sparse_h_range_of : forall L : list cellv,
-  sorted_by_rowb L = true -> Forall in_grid L ->
-  from_sparse_h DEmpty L = Ok (range_of L).
-Proof using from_sparse_spec_H.
-  intros L Hs Hg. rewrite from_sparse_h_sorted; [apply from_sparse_range_of; assumption| |exact Hg].
-  apply sorted_by_rowb_spec, Hs.
-Qed.
-
-(* what the current reader returns for EVERY well-formed layout in row order, inside and outside
-   known_C02's class: the range of [read_logical c] *)
-Theorem xls_sheet_read : forall c,
-  wf_layout c = true -> sorted_by_rowb (read_logical fdiv100 decode16 en c) = true ->
-  sheet_model fdiv100 decode16 en (encode_sheet c) = Ok (range_of (read_logical fdiv100 decode16 en c)).
-Proof using from_sparse_spec_H.
-  intros c Hwf Hs. unfold sheet_model.
-  rewrite sheet_cells_read by assumption. cbn [obind fst snd].
-  rewrite from_sparse_h_range_of; [|exact Hs|apply read_logical_grid; exact Hwf].
-  cbn [obind].
-  destruct (from_sparse_h_ok tt (map (fun p => (p, tt)) (layout_fmls c))) as [rf Hrf].
-  rewrite Hrf. reflexivity.
-Qed.
-
-(* xls_sheet_main: every legal layout c of a logical sheet L, outside the known class, reads
-   back as the range of L *)
+(* xls_sheet_main: every legal layout c of a logical sheet L — cell records in any order, any
+   run of ignored records between FORMULA and STRING, STRING continued in any number of
+   CONTINUE records — reads back as the range of L.  No known class is left. *)
 Theorem xls_sheet_main : forall L c,
-  legal fdiv100 decode16 en c L -> known_C02 c = None ->
+  legal fdiv100 decode16 en c L ->
   sheet_model fdiv100 decode16 en (encode_sheet c) = Ok (range_of L).
-Proof using from_sparse_spec_H.
-  intros L c (Hwf & HL & Hs) Hk. rewrite <- HL, <- (known_none_read fdiv100 decode16 en c Hk).
-  apply xls_sheet_read; [exact Hwf|]. rewrite known_none_read, HL by exact Hk. exact Hs.
+Proof.
+  intros L c (Hwf & HL). unfold sheet_model.
+  rewrite sheet_cells_encode by assumption. cbn [obind fst snd]. rewrite HL.
+  rewrite from_sparse_range_of by (rewrite <- HL; apply logical_grid; exact Hwf).
+  cbn [obind]. destruct (fmls_range_ok (layout_fmls c)) as [rf ->]. reflexivity.
 Qed.
 
 (* what "range_of L" means, spelled out: tight bounding box of the cells, every cell at its
    absolute position (last record wins), Empty elsewhere inside, nothing outside *)
 Theorem xls_sheet_main_values : forall L c,
-  legal fdiv100 decode16 en c L -> known_C02 c = None ->
+  legal fdiv100 decode16 en c L ->
   exists r, sheet_model fdiv100 decode16 en (encode_sheet c) = Ok r /\ Wf r /\
     rect r = tight_bbox (map fst L) /\
     forall q, get_value r q = if in_rect r q then Some (last_write DEmpty L q) else None.
-Proof using from_sparse_spec_H.
-  intros L c (Hwf & HL & Hs) Hk. unfold sheet_model.
+Proof.
+  intros L c (Hwf & HL). unfold sheet_model.
   rewrite sheet_cells_encode by assumption. cbn [obind fst snd]. rewrite HL.
-  destruct (from_sparse_h_ok tt (map (fun p => (p, tt)) (layout_fmls c))) as [rf Hrf].
-  rewrite Hrf.
-  assert (Hg0 : Forall in_grid L) by (rewrite <- HL; apply logical_grid; exact Hwf).
-  rewrite from_sparse_h_sorted; [|apply sorted_by_rowb_spec, Hs|exact Hg0].
-  cut (exists r, from_sparse DEmpty L = Ok r /\ Wf r /\
-         rect r = tight_bbox (map fst L) /\
-         forall q, get_value r q = if in_rect r q then Some (last_write DEmpty L q) else None).
-  { intros (r & -> & Hrest). exists r. cbn [obind]. split; [reflexivity|exact Hrest]. }
-  apply from_sparse_spec_H. cbn [pre].
+  destruct (fmls_range_ok (layout_fmls c)) as [rf Hrf]. rewrite Hrf.
   assert (Hg : Forall in_grid L) by (rewrite <- HL; apply logical_grid; exact Hwf).
-  split; [apply sorted_by_rowb_spec, Hs|]. split.
-  - intros x Hx. rewrite Forall_forall in Hg. destruct (Hg x Hx). unfold U32MAX. lia.
-  - destruct L as [|c0 L0]; [exact I|]. cbn [map].
-    assert (HgP : Forall (fun p => fst p < 65536 /\ snd p < 256) (map fst (c0 :: L0)))
-      by (apply Forall_map; exact Hg).
-    cbn [map] in HgP. destruct (tight_bbox_grid HgP) as (s & e & -> & B).
-    unfold box_in_grid in B. unfold U32MAX. cbn [fst snd] in *. lia.
+  assert (HgP : Forall (fun p => fst p < 65536 /\ snd p < 256) (map fst L))
+    by (apply Forall_map; exact Hg).
+  destruct (from_sparse_spec_unsorted DEmpty (pre_sparse_grid L HgP)) as (r & -> & Hrest).
+  exists r. cbn [obind]. split; [reflexivity|exact Hrest].
 Qed.
 
 End Main.
@@ -1631,6 +1446,14 @@ Proof.
     cbn [rk_chunks]. constructor; [reflexivity|]. apply IH. cbn [length] in H. lia.
 Qed.
 
+Lemma dbcs_bytes_safe : forall conts data len hb acc, safe (dbcs_bytes conts data len hb acc).
+Proof.
+  induction conts as [|c conts IH]; intros data len hb acc; cbn [dbcs_bytes]; cbv zeta.
+  - match goal with |- safe (if ?b then _ else _) => destruct b end; exact I.
+  - match goal with |- safe (if ?b then _ else _) => destruct b end; [exact I|].
+    destruct c as [|fl rest]; [exact I|apply IH].
+Qed.
+
 Section Total.
 Variable fdiv100 : N -> N.
 Variable decode16 : list N -> list N.
@@ -1686,14 +1509,18 @@ Qed.
 
 Lemma step_safe : forall r cells fpos fmls, safe (step fdiv100 decode16 en r cells fpos fmls).
 Proof.
-  intros [t d c] cells fpos fmls. unfold step. cbn [f_typ f_data]. cbv zeta.
+  intros [t d c] cells fpos fmls. unfold step. cbn [f_typ f_data f_cont]. cbv zeta.
   repeat match goal with
          | |- safe (if (t =? _) then _ else _) => destruct (t =? _)
          end;
   try (apply safe_bind; [|intros; exact I]);
   try first [apply parse_dimensions_safe|apply parse_number_safe|apply parse_label_safe
             |apply parse_bool_err_safe|apply parse_string_safe|apply parse_rk_safe
-            |apply parse_label_sst_safe|apply parse_mul_rk_safe|exact I].
+            |apply parse_label_sst_safe|apply parse_mul_rk_safe|exact I
+            |destruct c as [conts|];
+             [destruct (lenN d <? 3);
+              [apply parse_string_safe|apply safe_bind; [apply dbcs_bytes_safe|intros; exact I]]
+             |apply parse_string_safe]].
   - destruct (merge_cells_panics d); exact I.
   - destruct (lenN d <? 20) eqn:E; [exact I|].
     apply safe_bind.
@@ -1775,8 +1602,8 @@ Theorem sheet_model_total : forall stream,
 Proof.
   intros stream. apply safe_not. unfold sheet_model.
   apply safe_bind; [unfold sheet_cells; apply sheet_loop_safe; lia|intros cf _].
-  destruct (from_sparse_h_ok DEmpty (fst cf)) as [r ->]. cbn [obind].
-  destruct (from_sparse_h_ok tt (map (fun p => (p, tt)) (snd cf))) as [r' ->]. exact I.
+  destruct (from_sparse_total DEmpty (fst cf)) as (r & -> & _). cbn [obind].
+  destruct (from_sparse_total tt (map (fun p => (p, tt)) (snd cf))) as (r' & -> & _). exact I.
 Qed.
 
 Theorem sheet_at_total : forall workbook p,
@@ -1894,9 +1721,8 @@ Qed.
 (* ---------- what lies outside [legal] ---------- *)
 (* outside [legal]: cell records that are not in row order.  Until repo commit 3140dd1
    from_sparse took the first and last record's rows as the bounds (panic, or cells silently
-   dropped); it now searches all four bounds and these sheets read back in full.  [legal] still
-   asks for row order because the proofs go through C05's specification of the older
-   from_sparse (from_sparse_h_sorted); with C05's resynced spec the hypothesis can be dropped. *)
+   dropped); it now searches all four bounds and these sheets read back in full.  [legal]
+   no longer asks for row order (C05's from_sparse_spec_unsorted). *)
 Example unsorted_rows_read :
   sheet_model fdiv100 decode16 en
     (encode_sheet (mkLayout [IBool 5 0 0 true; IBool 2 0 0 false; IBool 6 0 0 true] []))
@@ -1943,7 +1769,6 @@ Definition example_env : env := mkEnv [FOther; FDateTime] false [[97; 98]; []; [
 Lemma example_legal : forall fdiv100 decode16,
   legal fdiv100 decode16 example_env example_layout
         (logical fdiv100 decode16 example_env example_layout) /\
-  known_C02 example_layout = None /\
   length (logical fdiv100 decode16 example_env example_layout) = 14%nat.
 Proof. intros. repeat split; reflexivity. Qed.
 
@@ -1969,23 +1794,19 @@ Proof.
   repeat split; lia.
 Qed.
 
-(* known_C02's class is inhabited by a legal layout the model (hence the code, as far as the
-   correspondence goes) reads wrongly: "h" in STRING, "i€" in its CONTINUE *)
+(* the former known class StringContinue, now read in full: "h" in STRING, "i€" in its CONTINUE,
+   SHRFMLA between FORMULA and STRING *)
 Definition cont_layout : layout :=
   mkLayout [IFormula 1 1 0 (CStr (mkStr [104] false) [mkStr [105; 8364] true]) 0 0
                      [3; 0; 30; 1; 0] [ex_shrfmla]] [].
 Definition id_decode (b : list N) : list N := b.
 
-Theorem refuted_string_continue : forall fdiv100,
-  exists c L, legal fdiv100 id_decode example_env c L /\ known_C02 c = Some 1 /\
-    sheet_model fdiv100 id_decode example_env (encode_sheet c) <> Ok (range_of L) /\
-    sheet_model fdiv100 id_decode example_env (encode_sheet c)
-      = Ok (range_of (read_logical fdiv100 id_decode example_env c)).
-Proof.
-  intros fdiv100. exists cont_layout, (logical fdiv100 id_decode example_env cont_layout).
-  split; [repeat split; reflexivity|]. split; [reflexivity|]. split; [|reflexivity].
-  intros H. vm_compute in H. discriminate.
-Qed.
+Lemma example_string_continue : forall fdiv100,
+  legal fdiv100 id_decode example_env cont_layout
+        (logical fdiv100 id_decode example_env cont_layout) /\
+  sheet_model fdiv100 id_decode example_env (encode_sheet cont_layout)
+    = Ok (mkRange (1, 1) (1, 1) [DString [104; 0; 105; 0; 172; 32]]).
+Proof. intros fdiv100. split; [split; reflexivity|]. vm_compute. reflexivity. Qed.
 
 Lemma example_equiv : forall fdiv100,
   form_of fdiv100 4619567317775286272 (RkI 700 true) = true /\       (* 7.0 as 700 / 100 *)
